@@ -4,6 +4,7 @@ the outcome class, the handler calls and a canonical snapshot of EVERY notifier 
 object (instance traits incl. trait_added, the object's own list, the TraitList/Dict/Set notifiers):
 handler identity, target, dispatcher, reference count, maintainer kind and graph."""
 import asyncio
+import copy
 import gc
 import inspect
 import json
@@ -17,7 +18,8 @@ import dlib  # noqa: E402
 
 logging.disable(logging.CRITICAL)
 
-from traits.api import Any, Dict, HasTraits, Instance, Int, List, Set, Str, observe  # noqa: E402
+from traits.api import (  # noqa: E402
+    Any, Dict, HasTraits, Instance, Int, List, Property, Set, Str, cached_property, observe)
 from traits.has_traits import _compile_expression  # noqa: E402
 from traits.observation import observe as observe_api  # noqa: E402
 from traits.observation import _has_traits_helpers as hth  # noqa: E402
@@ -37,7 +39,7 @@ EXN = ["ValueError", "NotifierNotFound", "RuntimeError", "IndexError", "KeyError
 
 # field numbering shared with tools/props/c09.py and coq/C09/Model.v (F_ITEMS = 0, F_TA = 1)
 FNUM = {"value": 2, "f": 3, "g": 4, "kids": 5, "m": 6, "s": 7, "w": 8, "nonexist": 9, "value2": 10,
-        "items": 11, "trait_added": 1, "extra": 13}
+        "items": 11, "trait_added": 1, "extra": 13, "cp": 14}
 FNAME = {v: k for k, v in FNUM.items()}
 F_OBJ = 12
 CONT = {"kids": 5, "m": 6, "s": 7}
@@ -52,6 +54,13 @@ class N(HasTraits):
     m = Dict(Str, Instance(HasTraits))
     s = Set(Instance(HasTraits))
     w = Any()
+    # a cached property whose value is an observable object: the walk must NOT look into the cache slot (the cache is
+    # filled and emptied without any change event); for the walk `cp` is a trait without a value in __dict__
+    cp = Property(Instance(HasTraits))
+
+    @cached_property
+    def _get_cp(self):
+        return self.f
 
     # the decorator path: registered when the object is created, handler = bound method of the object itself
     # (appears as a foreign element in the snapshots; must not keep the object alive either)
@@ -86,9 +95,33 @@ class P(HasTraits):
     w = Any()
 
 
+CALLS = [None]      # the call log of the case being run
+HID_OF = {}         # id(object) -> handler number of its class-level (decorated) observer
+
+
+def _mk_decl(expr):
+    """a class whose ONLY class-level registration is @observe(expr) (post_init=False): it is made by
+    _init_trait_observers, i.e. by __init__ and by __setstate__ (unpickling, copy.copy)"""
+    class D(HasTraits):
+        value = Int()
+        f = Instance(HasTraits)
+        kids = List(Instance(HasTraits))
+
+        @observe(expr)
+        def _nested(self, event):
+            h = HID_OF.get(id(self))
+            if h is not None:
+                CALLS[0].append(h)
+    return D
+
+
+DECL = {"D1": "f:value", "D2": "f.value", "D3": "kids.items.value"}
 CLASSES = {"N": N, "P": P, "E": E}
-TRAITS = {"N": ["value", "value2", "f", "g", "kids", "m", "s", "w"], "P": ["value2", "f", "kids", "w"]}
+TRAITS = {"N": ["value", "value2", "f", "g", "kids", "m", "s", "w", "cp"], "P": ["value2", "f", "kids", "w"]}
 TRAITS["E"] = TRAITS["N"]
+for _c, _e in DECL.items():
+    CLASSES[_c] = _mk_decl(_e)
+    TRAITS[_c] = ["value", "f", "kids"]
 
 
 def disp1(handler, event):
@@ -153,14 +186,20 @@ def graph_json(g):
 
 def run_case(case):
     calls = []
-    pool = [CLASSES[o["cls"]]() for o in case["objs"]]
+    CALLS[0] = calls
+    HID_OF.clear()
+    # an object with "copy_of" does not exist yet: it is made by a Copy step (copy.copy of that object)
+    pool = [None if "copy_of" in o else CLASSES[o["cls"]]() for o in case["objs"]]
     plain = {}      # oid -> plain (non-HasTraits) value
     conts = {}      # oid -> TraitList / TraitDict / TraitSet
     for i, (o, d) in enumerate(zip(pool, case["objs"])):
+        if o is None:
+            continue
         names = TRAITS[d["cls"]]
         if "value" in names:
             o.value = 0
-        o.value2 = 0
+        if "value2" in names:
+            o.value2 = 0
         for nm in ("f", "g"):
             if nm in names and d.get(nm) is not None:
                 setattr(o, nm, pool[d[nm]])
@@ -175,15 +214,22 @@ def run_case(case):
             o.w = plain[20 + i] = object()
         elif d.get("w") == "pylist":
             o.w = plain[20 + i] = [1, 2]
-    idx_of = {id(o): i for i, o in enumerate(pool)}
+    idx_of = {id(o): i for i, o in enumerate(pool) if o is not None}
     heap_items = {}
     for oid, c in conts.items():
         vals = list(c.values()) if isinstance(c, dict) else list(c)
         heap_items[str(oid)] = [idx_of[id(v)] for v in vals]
+    for i, d in enumerate(case["objs"]):
+        if "copy_of" in d:
+            heap_items[str(5 + 3 * i)] = list(heap_items[str(5 + 3 * d["copy_of"])])
 
     owners, handlers = [], []
     for i, hk in enumerate(case["handlers"]):
-        if hk in ("meth", "ameth"):
+        if hk == "decl":
+            # the class-level observer of an object made by a Copy step (a bound method of that object)
+            owners.append(None)
+            handlers.append(None)
+        elif hk in ("meth", "ameth"):
             ow = (Owner if hk == "meth" else AOwner)(i, calls)
             owners.append(ow)
             handlers.append(ow.meth)
@@ -236,8 +282,14 @@ def run_case(case):
 
     dead_objs = set()
 
+    pending = set(i for i, d in enumerate(case["objs"]) if "copy_of" in d)
+
     def snapshot():
         out = []
+        for i in sorted(pending):
+            # an object a Copy step will make: what every object of these classes carries from its creation on (the
+            # static trait_added handler, the TraitList's own notifier) counts as its initial population
+            out += [[i, FNUM["trait_added"], [["F", 0]]], [5 + 3 * i, 0, [["F", 0]]]]
         for i, o in enumerate(pool):
             if o is None:
                 continue
@@ -285,6 +337,22 @@ def run_case(case):
                         observe_api.apply_observers(
                             pool[root], graphs=[build_graph(t) for t in gtrees], handler=handlers[hid],
                             dispatcher=DISPATCHERS[dsp], remove=(k == "Unreg"))
+                elif k == "Copy":
+                    # ["Copy", i, r, hid, text]: object r = copy.copy(object i) (__reduce_ex__ / __setstate__, children
+                    # shared); __setstate__ makes the class's registration `text` for the new object: a registration
+                    _, i_, r_, hid, text = op
+                    graphs = [graph_json(g) for g in _compile_expression(text)]
+                    pool[r_] = copy.copy(pool[i_])
+                    HID_OF[id(pool[r_])] = hid
+                    pending.discard(r_)
+                    handlers[hid] = pool[r_]._nested
+                    idx_of[id(pool[r_])] = r_
+                    conts[5 + 3 * r_] = pool[r_].kids
+                    # what is delivered while the state is being restored is not part of the registration property
+                    del calls[:]
+                elif k == "ReadCp":
+                    # the cached property is read: its cache slot is filled, nothing else may change
+                    getattr(pool[op[1]], "cp")
                 elif k == "Change":
                     counter[0] += 1
                     setattr(pool[op[1]], FNAME[op[2]], counter[0])
@@ -374,6 +442,11 @@ def run_case(case):
 
     LOOP.run_until_complete(run_ops())
     # registrations must not keep the observed objects alive (handlers are still held here)
+    for hid, hk in enumerate(case["handlers"]):
+        if hk == "decl":
+            handlers[hid] = None      # a bound method of a pool object
+    HID_OF.clear()
+    memo.clear()
     wrs = [weakref.ref(x) for x in pool if x is not None]
     o = d = c = vals = ow = None
     pool[:] = []
